@@ -16,7 +16,8 @@ EXPLANATION = (
     " WIRE the sets of socket-operation layouts (field widths, NUL-terminated / length-prefixed strings, per successful path) written by the SOCKS4 request, SOCKS4 reply and SOCKS5 reply encoders equal those read by the project's own decoders; BUF every store into GlobalState.io_params is dominated by the non-zero edge of a test of buffer_size."
     " DELIM: a delimiter-terminated handshake field is accepted only behind the edge on which the delimiter was seen (C12's S2); WIRE also follows fields assembled in a buffer (REQ5 negotiation+request compared exactly)."
     ' HEAD-END: in the HTTP codec a function that reads lines in a loop returns success only over the edge on which the line just read was found empty (a bounded loop that runs out leaves the rest of the head for the tunnel).'
-    ' BUF-ONCE: a buffering reader over a stream (BufReader / BufStream / FramedRead / Framed / ReaderStream) is constructed only in make_buffered_stream; any other one keeps a read-ahead of its own that never reaches the tunnel.')
+    ' BUF-ONCE: a buffering reader over a stream (BufReader / BufStream / FramedRead / Framed / ReaderStream) is constructed only in make_buffered_stream; any other one keeps a read-ahead of its own that never reaches the tunnel.'
+    ' LINGER: no relay socket is configured for an abortive close; H1: drain_buffers flushes after its write on every path.')
 RULE_TEXT = "instances = write sites, writer functions, unwrap sites, relay arms, statics; non-trivial = those needing a dataflow/dominance argument"
 TRUSTED = ["tokio BufReader/BufWriter/read/write_all contracts", "kernel splice semantics", "TLS record handling in rustls"]
 NOT_DECIDED = ["equality of the delivered stream over all segmentations and payloads", "TLS record handling", "kernel splice semantics"]
@@ -182,6 +183,9 @@ def run(chk, prog):
     _c12.rule_s2(chk, prog, "DELIM")
     rule_head_end(chk, prog)
     shared.rule_buf_once(chk, prog)
+    # a relay socket closed abortively (SO_LINGER 0) discards what is still queued for the peer: the tail of the stream is lost
+    from .c04 import rule_linger
+    rule_linger(chk, prog, "LINGER")
 
     # WIRE: encoder/decoder layout agreement of the SOCKS messages
     shared.rule_wire(chk, prog)
